@@ -250,6 +250,15 @@ theorem stream_noFault (v : View) (hv : v.Inv) (i : Nat) : NoFault (v.stream i) 
   · next e he => cases h; exact blockHeader_noFault v hv i f he
   · exact slice_noFault _ _ _ f h
 
+theorem lzhLoad_noFault (v : View) (hv : v.Inv) (i : Nat) : NoFault (v.lzhLoad i) := by
+  intro f h
+  unfold lzhLoad at h
+  split at h
+  · next e he => cases h; exact blockHeader_noFault v hv i f he
+  · split at h
+    · cases h
+    · exact noFault_map _ _ (slice_noFault _ _ _) f h
+
 theorem extract_noFault (v : View) (hv : v.Inv) (i : Nat) : NoFault (v.extract i) := by
   intro f h
   unfold extract at h
@@ -258,7 +267,7 @@ theorem extract_noFault (v : View) (hv : v.Inv) (i : Nat) : NoFault (v.extract i
   · split at h
     · exact noFault_map _ _ (stream_noFault v hv i) f h
     · split at h
-      · exact noFault_map _ _ (stream_noFault v hv i) f h
+      · exact noFault_map _ _ (lzhLoad_noFault v hv i) f h
       · cases h
 
 end View
